@@ -30,7 +30,7 @@ def spec_violated(rep):
         f = op.split(" ")
         if f[0] == "dec" and line.startswith("ok") and line[3:] != f[2]:
             return "Decompress(%s) of damaged data returned different data with a nil error" % f[1]
-        if f[0] in ("rt", "rtb") and line != "ok":
+        if f[0] in ("rt", "rtb", "rtc") and line != "ok":
             return "round trip through %s returned %s" % (f[1], line)
         if line == "panic":
             return "Decompress(%s) panicked" % f[1]
@@ -59,7 +59,7 @@ def run(ctx):
     by_alg = {}
     for op, rep in zip(c.ops, c.impl):
         f = op.split(" ")
-        if f[0] in ("dec", "rt", "rtb"):
+        if f[0] in ("dec", "rt", "rtb", "rtc"):
             lib = f[0] if f[0] != "dec" else ("lib-" + ("ok" if f[4].startswith("O:") else f[4]))
             k = "%s/%s/%s" % (f[1], lib, rep.split(" ")[0])
             by_alg[k] = by_alg.get(k, 0) + 1
